@@ -272,7 +272,7 @@ impl Check for C05 {
     }
 
     fn rule(&self) -> String {
-        "for each seeded accepted message (bytes path, bits*m >= 2) EVERY single-component fault is applied: each of the 5+ext+2*rounds proof elements x {scalar: +1, negate, zero, random, non-canonical | point: H, sibling, random, identity, undecodable | two bit flips}, round count +-1, extension tag +-1 with/without length repair, truncation/extension by 1/31/32/33 bytes, each commitment x 4 replacements, each commitment pair swap, each promise x 5, bit length x2 and /2, H and each G_k x {point only, encoding only, both}, context label and context data; one evaluation = one delivery of one altered triple in one mode (VerifyOnly, RecoverAndVerify); replacements equal to the original and None->Some(0) are skipped (not alterations); distinct = distinct event-log hashes of messages on which at least one fault was applied. Exhaustive over fault positions per message, sampled over messages.".into()
+        "for each seeded accepted message (bytes path, bits*m >= 2) EVERY single-component fault is applied: each of the 5+ext+2*rounds proof elements x {scalar: +1, negate, zero, random, non-canonical | point: H, sibling, random, identity, undecodable | two bit flips}, round count +-1, extension tag +-1 with/without length repair, truncation/extension by 1/31/32/33 bytes, each commitment x 4 replacements, each commitment pair swap, each promise x 5, bit length x2 and /2, H and each G_k x {point only, encoding only, both}, context label and context data; one evaluation = one delivery of one altered triple in one mode (VerifyOnly, RecoverAndVerify), alone or as first or last member of a batch of two or three; replacements equal to the original and None->Some(0) are skipped (not alterations); distinct = distinct event-log hashes of messages on which at least one fault was applied. Exhaustive over fault positions per message, sampled over messages.".into()
     }
 
     fn assumptions(&self) -> Vec<String> {
